@@ -93,10 +93,9 @@ def parse_template(text: str) -> List[Token]:
 
             resolved_tokens.append(fixed_token)
             index_start = fixed_token.position[1]
-            lineno_offset += (
-                fixed_token.lineno - 1  # -1 because lines are 1-indexed
-                + fixed_token.contents.count("\n")
-            )  # fmt: skip
+            # The next pass of the lexer starts counting lines from 1 again,
+            # so the offset is the number of newlines before the resume position.
+            lineno_offset = text.count("\n", 0, index_start)
         else:
             break
 
